@@ -84,6 +84,7 @@ type siteRig struct {
 	errFile     string
 	hasLog      bool
 	logExcept   string
+	log2        bool // C20: a second log directive (scope /p, own file, no except)
 	hasGzip     bool
 	gzLevel     int
 	gzMin       int
@@ -429,6 +430,7 @@ func runSite(mode string) sim.RigFunc {
 		if r.hasLog && pick(40) {
 			r.logExcept = "/p/quiet"
 		}
+		r.log2 = mode == "C20" && pick(50)
 		// the log format of this run: the request id first, then a random arrangement of fragments
 		perm := make([]int, len(logFrags))
 		for i := range perm {
@@ -466,6 +468,10 @@ func runSite(mode string) sim.RigFunc {
 					fmt.Fprintf(&b, "\t\texcept %s\n", r.logExcept)
 				}
 				b.WriteString("\t}\n")
+				if r.log2 {
+					// a second log with a narrower scope and no exceptions of its own
+					fmt.Fprintf(&b, "\tlog /p %s \"R={>X-Req} {status} {size}\" {\n\t\trotate_disable\n\t}\n", r.logFile+"2")
+				}
 			}
 			if r.hasGzip && !twin {
 				b.WriteString("\tgzip {\n")
@@ -1058,6 +1064,10 @@ func (r *siteRig) judge() {
 			r.judgeCompression(q, resp, dec, derr, bodyless)
 		}
 	}
+	if mode == "C20" && r.log2 {
+		b2, _ := os.ReadFile(r.logFile + "2")
+		r.judgeLog2(strings.Split(strings.TrimRight(string(b2), "\n"), "\n"))
+	}
 	if mode == "C20" {
 		r.judgeLog(lines)
 	}
@@ -1337,6 +1347,60 @@ func (r *siteRig) judgeCompression(q *sreq, resp *sim.Resp, dec []byte, derr err
 	}
 	if strings.Contains(ce, "gzip") {
 		c.Probe("response-gzip-compressed-by-directive")
+	}
+}
+
+// judgeLog2: the second log directive (scope /p, no exceptions): one line for
+// every completed request under /p, whatever the first log directive excepts.
+func (r *siteRig) judgeLog2(lines []string) {
+	c := r.c
+	byReq := map[string][]string{}
+	for _, l := range lines {
+		if l == "" {
+			continue
+		}
+		if !strings.HasPrefix(l, "R=") {
+			c.Violate("C20/torn-line", "second-log", "line of the second access log does not start with the format's first field: %q", trunc([]byte(l), 200))
+			continue
+		}
+		id := strings.SplitN(l[2:], " ", 2)[0]
+		byReq[id] = append(byReq[id], l)
+	}
+	for _, q := range r.reqs {
+		if q.site != "s" || q.conn.aborted || q.resp == nil || q.target != "" {
+			continue
+		}
+		p := q.path
+		if u, err := url.PathUnescape(p); err == nil {
+			p = u
+		}
+		inScope := strings.HasPrefix(strings.ToLower(path.Clean(p)), "/p")
+		got := byReq[q.id]
+		if !inScope {
+			if len(got) > 0 {
+				c.Violate("C20/out-of-scope-request-logged", "second-log", "request %s to %s is outside the second log's scope /p but produced %d lines there", q.id, q.path, len(got))
+			}
+			continue
+		}
+		panicked := q.script.panicAt >= 0
+		if len(got) != 1 {
+			sig := "second-log"
+			if panicked {
+				sig = fmt.Sprintf("handler-panicked/errors=%v", r.hasErrors)
+			} else if q.noLog {
+				sig = "second-log/excepted-by-the-first-log-only"
+			}
+			c.Violate("C20/line-count", sig, "request %s (%s %s, status on the wire %d) produced %d lines in the second access log (scope /p, no exceptions), want exactly 1 (%s)", q.id, q.method, q.path, q.resp.Status, len(got), r.dirSig())
+			continue
+		}
+		if panicked {
+			continue
+		}
+		size := len(q.resp.Body)
+		if want := fmt.Sprintf("R=%s %d %d", q.id, q.resp.Status, size); got[0] != want {
+			c.Violate("C20/line-differs", "second-log", "request %s: line of the second access log\n   got  %q\n   want %q", q.id, got[0], want)
+		}
+		c.Probe("second-log-line-checked")
 	}
 }
 
